@@ -8,8 +8,11 @@ Source anchors ↦ model definitions
 * `Supercell._get_simple_supercell`              ↦ `simpleSupercell`
 * `TrimmedCell._run / _extract`                  ↦ `trim`  (`distance < symprec` ↦ exact equality mod 1)
 * `Supercell._create_supercell` (classic / SNF)  ↦ `supercell`  (`old = true / false`)
-* `Primitive._create_primitive_cell`, `_map_atomic_indices`, `_get_atomic_permutations`
-  (+ `compute_all_sg_permutations` for pure translations) ↦ `primitive`
+* `Supercell._create_supercell` tail (`N != determinant(S)` guard, `s2u/u2s`) ↦ `perAtom`, `finishSupercell`
+* `Primitive._create_primitive_cell` (trim + symbol check) ↦ `primTrim`; `_map_atomic_indices` ↦ `primS2P`;
+  `_get_atomic_permutations` (+ `compute_all_sg_permutations` for pure translations) ↦ `primPerms`;
+  `Primitive._run` ↦ `primitive`
+* certificates (no counterpart in the code): `eqModS`, `SnfCert`, `isCompleteResidueSystem`, `frameComplete`
 * `determinant`                                  ↦ `M3.det`
 
 Positions are exact rationals; the lattice enters only through `cell = Sᵀ·L` (rational `L`).
